@@ -168,7 +168,12 @@ def reset_global_rngs(seed=0):
 # that returns an ndarray). Writing into such a result corrupts later calls; this exists on the unchanged tree, lies outside
 # the quantifiers of the properties concerned (inputs, not mutation histories) and is documented in DESIGN.md 9.3 as a known
 # limit: the result-aliasing oracle skips exactly these functions (the overwritten-by-a-later-call oracle still applies).
-SHARED_RESULT_FUNCTIONS = set()
+SHARED_RESULT_FUNCTIONS = {
+    'numqi.gellmann.all_gellmann_matrix',
+    'numqi.group._symmetric.get_sym_group_num_irrep',
+    'numqi.group._symmetric.get_symmetric_group_cayley_table',
+    'numqi.matrix_space._clebsch_gordan.get_clebsch_gordan_coeffient',
+}
 
 
 class ImmutabilityGuard:
